@@ -87,6 +87,64 @@ def xf_names(m, n, hermitian=False):
     return names
 
 
+# ---- exhaustive small-integer matrices: every m x n matrix over a small alphabet, addressed by its index in base len(alphabet)
+# (row-major, most significant digit first).  Exact data make exact ties, exact dependencies and exactly invariant subspaces the rule.
+SI_ALPHABETS = {
+    "r3": [(-1.0, 0, 0, 0), (0.0, 0, 0, 0), (1.0, 0, 0, 0)],
+    "r4": [(-1.0, 0, 0, 0), (0.0, 0, 0, 0), (1.0, 0, 0, 0), (2.0, 0, 0, 0)],
+    "q6": [(0.0, 0, 0, 0), (1.0, 0, 0, 0), (-1.0, 0, 0, 0), (0, 1.0, 0, 0), (0, 0, 1.0, 0), (0, 0, 0, 1.0)],
+    "q4": [(0.0, 0, 0, 0), (1.0, 0, 0, 0), (0, 1.0, 0, 0), (0, 0, 1.0, 0)],
+}
+
+
+def si_count(alpha, m, n, hermitian=False):
+    k = len(SI_ALPHABETS[alpha])
+    if hermitian:
+        return 3 ** n * k ** (n * (n - 1) // 2)  # diagonal over {-1, 0, 1}, strict upper triangle over the alphabet
+    return k ** (m * n)
+
+
+def si_names(alpha, m, n, hermitian=False, stride=1, offset=0):
+    tag = "sih" if hermitian else "si"
+    return [f"{tag}:{alpha}:{i}" for i in range(offset, si_count(alpha, m, n, hermitian), stride)]
+
+
+def si_cells(tier, hermitian=False):
+    """-> [(m, n, names)]: the exhaustive small-integer cells of a tier (independent of the seed)."""
+    t = tier == "thorough"
+    if hermitian:
+        return [(2, 2, si_names("q6", 2, 2, True)), (3, 3, si_names("q6", 3, 3, True, 1 if t else 3))]
+    out = [(2, 2, si_names("q6", 2, 2)), (3, 3, si_names("r3", 3, 3, False, 1 if t else 4)),
+           (2, 3, si_names("q4", 2, 3, False, 1 if t else 4)), (3, 2, si_names("q4", 3, 2, False, 1 if t else 4))]
+    if t:
+        out.append((3, 3, si_names("r4", 3, 3, False, 16)))
+    return out
+
+
+def si_build(name, m, n):
+    tag, alpha, idx = name.split(":")
+    vals = SI_ALPHABETS[alpha]
+    k = len(vals)
+    idx = int(idx)
+    A = np.zeros((m, n, 4))
+    if tag == "sih":
+        assert m == n
+        pos = [(i, j) for i in range(n) for j in range(i + 1, n)]
+        for (i, j) in reversed(pos):
+            idx, d = divmod(idx, k)
+            A[i, j] = vals[d]
+            A[j, i] = vals[d]
+            A[j, i, 1:] *= -1.0
+        for i in reversed(range(n)):
+            idx, d = divmod(idx, 3)
+            A[i, i, 0] = d - 1.0
+        return A + 0.0  # no negative zeros
+    for t in reversed(range(m * n)):
+        idx, d = divmod(idx, k)
+        A[t // n, t % n] = vals[d]
+    return A
+
+
 def _hermitize(A):
     A = 0.5 * (A + O.qH(A))
     for i in range(A.shape[0]):
@@ -104,6 +162,8 @@ def xf_build(name, m, n, fill, hermitian=False):
     if hermitian:
         assert m == n
         base = _hermitize(base)
+    if name.startswith("si:") or name.startswith("sih:"):
+        return si_build(name, m, n), "C"
     if name.startswith("cm:"):
         mask = sum(1 << "1ijk".index(c) for c in name[3:])
         A = G.apply_component_mask(base, mask)
